@@ -336,8 +336,16 @@ func gRandSession(o *vOut, r *vRand, c gGenCfg, emit func(string) string, maxOps
 			break
 		}
 		switch {
+		case st == "new" && x < 12:
+			out = emit("gather gather2")
+		case st == "new" && x < 18:
+			out = emit("gather grg")
 		case st == "new" && x < 55:
 			out = emit("gather gather")
+		case x < 3:
+			out = emit("gather gather2")
+		case x < 5:
+			out = emit("gather grg")
 		case x < 8:
 			out = emit("gather gather")
 		case ns > 0 && x < 45:
@@ -369,7 +377,7 @@ func gRandSession(o *vOut, r *vRand, c gGenCfg, emit func(string) string, maxOps
 
 // base scripts with Restart / Close / Failed inserted at every step
 func gSystematic(o *vOut, r *vRand, emit func(string) string, cfgs []gGenCfg) {
-	base := []string{"gather gather", "gather stunreply 0 1", "gather turnreply 0 ok1", "gather stunreply 0 2", "gather adv 5000", "gather adv 8000"}
+	base := []string{"gather gather2", "gather stunreply 0 1", "gather turnreply 0 ok1", "gather stunreply 0 2", "gather adv 5000", "gather adv 8000"}
 	for _, c := range cfgs {
 		for _, ins := range []string{"gather restart", "gather close", "gather fail"} {
 			for pos := 0; pos <= len(base); pos++ {
@@ -407,6 +415,28 @@ func gGen(o *vOut, r *vRand, thorough bool, args []string, emit func(op string) 
 				emit("gather gather")
 				emit("gather end")
 			}
+		}
+	}
+	// 1b. two GatherCandidates calls queued behind a held task loop (both accepted in state New, the first
+	// cycle must be cancelled before it marks Gathering), alone and combined with restart / close, and
+	// GatherCandidates / Restart / GatherCandidates queued
+	for _, c := range []gGenCfg{
+		{ct: "h", nt: "", ifaces: gIfaceTables[1]},
+		{ct: "h", nt: "u4", pmin: 5000, pmax: 5001, ifaces: gIfaceTables[0]},
+		{ct: "hs", nt: "u4+u6", su: 1, ifaces: gIfaceTables[1]},
+		{ct: "hsr", nt: "", su: 1, tu: 1, tm: "any", ifaces: gIfaceTables[2]},
+		{ct: "hs", nt: "", su: 1, um: "g4.1+g6.1", sm: "g4.1", ifaces: gIfaceTables[1]},
+	} {
+		for _, script := range [][]string{
+			{"gather2", "gather", "gather2", "restart", "gather2", "stunreply 0 1", "turnreply 0 ok1", "close", "gather2"},
+			{"grg", "gather2", "grg", "stunreply 0 1", "grg", "close", "grg"},
+			{"gather", "grg", "restart", "gather2", "restart", "grg", "adv 5000", "gather2"},
+		} {
+			emit("gather new " + c.String() + " " + c.ifaces)
+			for _, op := range script {
+				emit("gather " + op)
+			}
+			emit("gather end")
 		}
 	}
 	// 2. port ranges: single port, exhausted, two ports with one busy, duplicates of one address
